@@ -41,10 +41,10 @@ SingCat == << << <<3, 1, 0, 0>>, <<1, -1, 1, 0>> >>, << <<4, 0, 1, 0>>, <<2, 1, 
 
 \* the complex instance of this module (MC_CFactor, Gaussian-rational scalars) generates the complex eigenproblems only
 Complex == ~RIsReal(RCx(RZero, ROne))
-Kinds == IF Complex THEN {"eig2c", "eig2cc"}
+Kinds == IF Complex THEN {"eig2c", "eig2cc", "eig2ch"}
          ELSE {"qr2", "qr3", "qr_tall", "qr_wide", "qr_full", "chol2", "chol3", "lu3", "eigh3", "svd32", "eig2"}
 NB(k) == CASE k \in {"qr2", "qr3", "qr_tall", "qr_wide", "qr_full", "chol2", "chol3"} -> 3
-           [] k = "lu3" -> 6 [] k = "eigh3" -> 6 [] k = "svd32" -> 2 [] k \in {"eig2", "eig2c", "eig2cc"} -> 2
+           [] k = "lu3" -> 6 [] k = "eigh3" -> 6 [] k = "svd32" -> 2 [] k \in {"eig2", "eig2c", "eig2cc", "eig2ch"} -> 2
 Init == kind = "none" /\ b = 0 /\ q = 0
 Next == \/ /\ kind = "none" /\ kind' \in Kinds /\ b' \in 1..NB(kind') /\ q' = 0
         \/ /\ kind # "none" /\ q = 0 /\ q' \in 1..Q /\ UNCHANGED <<kind, b>>
@@ -85,6 +85,12 @@ Inst ==
                                     ELSE IF d = 2 THEN RCx(RInt(-1), RInt(2)) ELSE RZero]
              lam == <<l1, l2>>
          IN [A |-> Dot(X, Dot(DiagM(lam), Inv(X))), X |-> X, lam |-> [shape |-> <<2>>, v |-> lam]]
+    \*                        "eig2ch" a REAL spectrum at every order with truly complex eigenvectors (e.g. a complex Hermitian matrix)
+    [] kind = "eig2ch" ->
+         LET X == Mat(2, 2, LAMBDA i, j : [d \in 1..Dg |-> IF d = 1 THEN (IF i = j THEN ROne ELSE RCx(RZero, RInt(IF i = 0 THEN 1 ELSE b)))
+                                                         ELSE RCx(RInt(Noise(q, i, j, d)), RInt(Noise(q + 1, j, i, d + 1)))])
+             lam == << LamSeries(<<1, 1, 0, 0>>), LamSeries(<<3, -1, 0, 0>>) >>
+         IN [A |-> Dot(X, Dot(DiagM(lam), Inv(X))), X |-> X, lam |-> [shape |-> <<2>>, v |-> lam]]
 \* ---- M: the generators produce what they claim (exact identities mod t^D)
 GenOK == Ready => LET I == TLCEval(Inst) IN
   CASE kind \in {"qr2", "qr3", "qr_wide"} -> IsOrtho(I.Q) /\ IsUpper(I.R)
@@ -95,6 +101,9 @@ GenOK == Ready => LET I == TLCEval(Inst) IN
     [] kind = "eigh3" -> IsOrtho(I.Q) /\ Transp(I.A) = I.A /\ Dot(I.A, I.Q) = Dot(I.Q, DiagM(I.lam.v))
     [] kind = "svd32" -> IsOrtho(I.U) /\ IsOrtho(I.V)
     [] kind = "eig2" -> Dot(I.A, I.X) = Dot(I.X, DiagM(I.lam.v))
+    [] kind = "eig2ch" -> /\ Dot(I.A, I.X) = Dot(I.X, DiagM(I.lam.v))
+                          /\ \A k \in 1..2 : \A d \in 1..Dg : RIsReal(I.lam.v[k][d])                     \* real spectrum at every order
+                          /\ \E k \in 1..4 : ~RIsReal(I.X.v[k][1])                                      \* complex eigenvectors at order 0
     [] kind \in {"eig2c", "eig2cc"} -> /\ Dot(I.A, I.X) = Dot(I.X, DiagM(I.lam.v))
                                        /\ (kind = "eig2c") = (\A k \in 1..4 : RIsReal(I.A.v[k][1]))       \* real base matrix iff "eig2c"
                                        /\ \E k \in 1..4 : ~RIsReal(I.A.v[k][2])                          \* complex first-order coefficient
